@@ -294,19 +294,21 @@ def key_types(ty):
     return out
 
 
-def rule_keys(ctx, rep):
-    r = rep.rule("R-C08-keys", "every name table in parser and analyzer is keyed by Id/Type (case-insensitive) - never by String/&str",
-                 floor=15, floor_what="distinct table instantiations")
+def rule_keys(ctx, rep, rid="R-C08-keys", files=None, floor=15, what="every name table in parser and analyzer"):
+    r = rep.rule(rid, what + " is keyed by Id/Type (case-insensitive) - never by String/&str",
+                 floor=floor, floor_what="distinct table instantiations")
     seen = {}
     for b in ctx.prog.bodies.values():
         if b.f["crate"] not in ("ironplc_analyzer", "ironplc_parser"):
+            continue
+        if files and not any(x in b.f["file"] for x in files):
             continue
         for ty, _ in b.f["locals"]:
             for cont, k in key_types(ty):
                 k2 = re.sub(r"&'\S+ ", "&", k)
                 seen.setdefault((cont, k2), "%s:%d (%s)" % (b.f["file"], b.f["line"], norm(b.id).split("::")[-1]))
     for a in ctx.facts.adts.values():
-        if a["crate"] in ("ironplc_analyzer", "ironplc_parser"):
+        if a["crate"] in ("ironplc_analyzer", "ironplc_parser") and (not files or any(x in a["file"] for x in files)):
             for v in a["variants"]:
                 for fl in v["fields"]:
                     for cont, k in key_types(fl["ty"]):
@@ -320,7 +322,7 @@ def rule_keys(ctx, rep):
         else:
             r.finding(inst, where, "table keyed by %s: lookups become sensitive to the spelling of identifiers" % k)
     # phf keyword/stdlib sets must be queried with the lower-cased spelling
-    for b in ctx.prog.bodies.values():
+    for b in ([] if files else ctx.prog.bodies.values()):
         if b.f["crate"] not in ("ironplc_analyzer", "ironplc_parser"):
             continue
         for c in b.calls():
